@@ -877,7 +877,10 @@ class Interp:
             if isinstance(v, tuple) and v[0] == "idlvar" and v[1] != "cand":
                 n.env[loc] = ("idlvar", "cand")
             elif isinstance(v, tuple) and v[0] == "idl":
-                raise Shape("literal candidate list carried into a loop")
+                # a literal start value (e.g. `let mut cand = IdList::AllIds`): it must itself be a sound claim for "no term yet"
+                ok, why = self.judge(st, v, "acc")
+                self.record(f"{self.mode}-init:{_claim_key(v)}", ok, f"{self.claim_s(v)} as the start value: {why}", None)
+                n.env[loc] = ("idlvar", "cand")
             elif isinstance(v, tuple) and v[0] == "set" and v[1] != ("atom", ("acc", loc)):
                 if not refs_to(body, loc):
                     n.env[loc] = None          # a leftover binding of an earlier table arm, not an accumulator
@@ -919,6 +922,9 @@ class Interp:
                 row = self.row_key(st)
                 self.record(row, ok, f"acc := {set_s(v[1])}: " + ("accumulator stays a superset of the terms so far"
                                                                    if ok else "an entry that matches can be dropped from the accumulator (1,0 reachable)"), line)
+                if not ok:
+                    # report the broken row once; later rows / the final claim are judged on the repaired invariant
+                    pairs = (pairs - {(1, 0)}) or set(st.acc[loc])
                 n.acc[loc] = frozenset(pairs)
                 n.env[loc] = ("set", ("atom", ("acc", loc)))
         n.choices = {}
@@ -1353,7 +1359,7 @@ def run_retest(ctx, name):
     entry_locals = {}
     for n in walk(f["body"]):
         if n.get("s") == "let" and n.get("init") is not None and n["pat"].get("p") == "bind":
-            if calls_in(strip_try(n["init"]), "get_identry") and is_call_to(strip_try(n["init"]) if strip_try(n["init"]).get("e") == "mcall" else {}, "map_err", "get_identry", "inspect_err"):
+            if calls_in(strip_try(n["init"]), "get_identry", into_closures=False):
                 entry_locals[n["pat"]["local"]] = n
     if not ctx.check(len(entry_locals) >= 1, rule, f["fn"], f"{name}:entries-found", "get_identry result bound", "no `let entries = ..get_identry(..)?` found (shape not understood)", file=f["file"], line=f["line"]):
         return
